@@ -189,6 +189,10 @@ func (d *uintDecoder) Decode(ctx *RuntimeContext, cursor, depth int64, p unsafe.
 		return c, nil
 	}
 	cursor = c
+	if !validEndNumberChar[ctx.Buf[cursor]] {
+		// "01", "1-": nothing is stored for a literal that does not end here
+		return 0, errNumberEnd(ctx.Buf, cursor, depth)
+	}
 	u64, err := d.parseUint(bytes)
 	if err != nil {
 		return 0, d.typeError(bytes, cursor)
